@@ -123,7 +123,7 @@ class Case:
     def build(self, costs):
         """costs: dict spe/dup/hgt/floss/sloss -> value.  Returns the superrec2 input."""
         d = {
-            "object_tree": self.O.newick(),
+            "object_tree": self.O.newick({int(k): {"color": v} for k, v in (self.desc.get("ocolors") or {}).items()}),
             "species_tree": self.S.newick(),
             "leaf_object_species": self.leafmap,
             "costs": costs_dict(costs),
